@@ -137,6 +137,11 @@ def one_generation(acc, prop, m, seed, forced, fr, script=None, parsed=None, tol
         if prop == "C06":
             acc.violation("completes", f"generation of the well-posed molecule {text!r} raised {msg[:300]}", case,
                           {"error": type(gres.exc).__name__}, size=len(text))
+        if prop == "C05" and type(gres.exc).__name__ in ("AtomValenceException", "KekulizeException", "AtomKekulizeException",
+                                                          "AtomSanitizeException", "MolSanitizeException"):
+            # the growing molecule did not pass chemical sanitisation (the library sanitises while it measures the mass)
+            acc.violation("sanitize", f"generation of {text!r} stopped because the molecule does not sanitise: {msg[:300]}", case,
+                          {"during_generation": True}, size=len(text))
         return parsed
     findings, facts = genoracle.evaluate(parsed, gres, want_closed=not tolerate_raise)
     acc.case(nontrivial_key(prop, m, facts, text, seed if script is None else tuple(script)),
